@@ -123,3 +123,27 @@ def _p3(prop, schema, rw, tname, val, bad):
     is_p3_exc = ex.get('type') == 'TypeError' and 'fill character' in (ex.get('message') or '') \
         and 'composite.py' in (ex.get('frame') or '')
     return (is_p3_exc or det.get('p3_text')) and leaves_nonfixed_bytes_unset(schema, tname, val)
+
+
+# ---------------------------------------------------------------------------------------------- regress
+def run_regress(prop, stats, check_case_fn):
+    """Replay tier: saved minimal inputs of defects found earlier (and since repaired) are re-run first."""
+    import glob
+    import json
+    import os
+    from .refwire import RefWire
+    from .runner import VERIF
+    for path in sorted(glob.glob(os.path.join(VERIF, 'regress', prop, '*.json'))):
+        with open(path) as f:
+            payload = json.load(f)
+        schema, tname, val = case_from_payload(payload)
+        bad = check_case_fn(schema, tname, val)
+        stats.notes['regress_cases'] += 1
+        if bad:
+            rw = RefWire(schema)
+            fid = classify_known(prop, schema, rw, tname, val, bad)
+            if fid:
+                stats.known_finding(fid, os.path.basename(path))
+            else:
+                stats.violations.append({'what': 'regression input %s: %s' % (os.path.basename(path), bad[0]),
+                                         'case': case_payload(schema, tname, val, bad[1])})
